@@ -46,6 +46,7 @@ uint8_t __dso_handle;
 static uint32_t vf_errno_cell;
 uint32_t* vfx___errno_location(void) { return &vf_errno_cell; }
 uint64_t vfx_strlen(uint8_t* s) { uint64_t n = 0; while (s[n]) n++; return n; }
+uint8_t* vfx_strerror_r(uint32_t e, uint8_t* buf, uint64_t n) { (void)e; if (n >= 2) { buf[0] = 'E'; buf[1] = 0; } return buf; }   /* GNU strerror_r: message text is not observed */
 uint32_t vfx_strcmp(uint8_t* a, uint8_t* b) { uint64_t i = 0; while (a[i] && a[i] == b[i]) i++; return (uint32_t)((int)a[i] - (int)b[i]); }
 uint32_t vfx_strncmp(uint8_t* a, uint8_t* b, uint64_t n) { for (uint64_t i = 0; i < n; i++) { if (a[i] != b[i]) return (uint32_t)((int)a[i] - (int)b[i]); if (!a[i]) return 0; } return 0; }
 uint32_t vfx_memcmp(uint8_t* a, uint8_t* b, uint64_t n) { for (uint64_t i = 0; i < n; i++) if (a[i] != b[i]) return (uint32_t)((int)a[i] - (int)b[i]); return 0; }
